@@ -192,6 +192,7 @@ def c17(run):
         run.broke('harness build', o[-1500:])
     else:
         D.correspond(run, 'dispatch', [])
+        D.run_minlink(run, 'C17_impl_realises_alg')
     run.cov['rule'] = ('real keys of the 24 registered algorithms x {original, CBOR, JSON, text round trip} x alg present/absent x optional kid/key_ops, all four factories; '
                        'grid of (kty, alg, crv) triples incl. unregistered values and non-integer members; nil key; KeySet/Signers/Verifiers lookups incl. case-variant and non-UTF-8 ids')
     return D.finish(run, 'proof')
